@@ -771,6 +771,11 @@ func (cg *ConsumerGroup) run() {
 		select {
 		case <-cg.done:
 			if verifOn { verifEvent("CG.Err", cg, verifGroupErr(err), false) }
+			// the group was closed while the error was waiting to be
+			// delivered.  in the RebalanceInProgress case the member ID is
+			// still held, so leave the group like every other exit path
+			// (no-op when the member ID was already cleared above).
+			_ = cg.leaveGroup(memberID)
 			return
 		case cg.errs <- err:
 			if verifOn { verifEvent("CG.Err", cg, verifGroupErr(err), true) }
